@@ -22,7 +22,7 @@ pub fn def() -> PropDef {
     PropDef {
         info: PropInfo {
             id: "C20",
-            rule: "corpus lines generated from the strategies of the other checks: A = assembly texts (C13 programs and C14 token soup), V = near-valid byte strings (C06), D = well-formed instruction streams (C15), X = structured programs + inputs (C01/C03, helper-free), dense straight-line programs, and call-graph / helper-call programs (C07/C08) with registered helpers and a stack-usage calculator on each of the four VM kinds; the JIT only on runs the reference model classifies as defined, terminating and in bounds. Each line is evaluated in two builds of the crate: the default one (in this process, executions fork-isolated) and the no_std one (binary harness-nostd, JIT running from caller-supplied mmap'ed executable memory). Oracle: the two transcripts are equal line by line - assembler Ok(bytes)/Err (messages are documented to differ, only the kind is compared), verifier Ok/Err, disassembler entries field by field, interpreter Ok(value)+packet bytes / Err, JIT Ok(value)+packet bytes / compile error. Non-trivial = line whose default-build result is Ok with at least 2 instructions, or Err; distinct by hash of the line.",
+            rule: "corpus lines generated from the strategies of the other checks: A = assembly texts (C13 programs and C14 token soup), V = near-valid byte strings (C06), D = well-formed instruction streams (C15), X = structured programs + inputs (C01/C03, helper-free), dense straight-line programs, and call-graph / helper-call programs (C07/C08) with registered helpers and a stack-usage calculator on each of the four VM kinds, and helper-call programs for which the no_std build's caller-supplied JIT memory is placed near the helper and on either side of the +-2^31 distances from it; the JIT only on runs the reference model classifies as defined, terminating and in bounds. Each line is evaluated in two builds of the crate: the default one (in this process, executions fork-isolated) and the no_std one (binary harness-nostd, JIT running from caller-supplied mmap'ed executable memory). Oracle: the two transcripts are equal line by line - assembler Ok(bytes)/Err (messages are documented to differ, only the kind is compared), verifier Ok/Err, disassembler entries field by field, interpreter Ok(value)+packet bytes / Err, JIT Ok(value)+packet bytes / compile error. Non-trivial = line whose default-build result is Ok with at least 2 instructions, or Err; distinct by hash of the line.",
             assumptions: &["the no_std build is linked into an ordinary std binary (only the crate's own feature set differs)", "Cranelift and the std-only helpers do not exist in the no_std build and are outside this property"],
         },
         run,
@@ -304,6 +304,31 @@ fn run(ctx: &Ctx) {
         }
         drop(st);
         lines.push(x_line(&case, with_jit));
+    }
+    // where the caller-supplied JIT memory of the no_std build lies relative to the helpers: near
+    // them, and on either side of the 2^31 distances at which a rel32 call stops reaching - with
+    // the helper call at code offsets from a few bytes to several pages
+    if ctx.worker == 0 {
+        for pool_idx in 0..8u8 {
+            for fill in [0usize, 300, 1200, 3000] {
+                for place in ["a".to_string(), format!("n{pool_idx}"), format!("p0:{pool_idx}"), format!("p1:{pool_idx}"), format!("p2:{pool_idx}"), format!("m0:{pool_idx}"), format!("m1:{pool_idx}")] {
+                    let mut insns: Vec<isa::Insn> = Vec::new();
+                    for _ in 0..fill {
+                        insns.push(isa::Insn::new(isa::alu_opc(true, isa::ALU_MOV, false), 6, 0, 0, 1));
+                    }
+                    for r in 1..=5u8 {
+                        insns.push(isa::Insn::new(isa::alu_opc(true, isa::ALU_MOV, false), r, 0, 0, 10 * r as i32 + pool_idx as i32));
+                    }
+                    insns.push(isa::Insn::new(isa::CALL, 0, 0, 0, 1));
+                    insns.push(isa::Insn::new(isa::EXIT, 0, 0, 0, 0));
+                    let mut case = ExecCase::new(VmKind::NoData, isa::encode_prog(&insns));
+                    case.helpers = vec![(1, pool_idx)];
+                    case.budget = 100_000;
+                    ctx.stats().class(&format!("X-placement:{}", &place[..1]));
+                    lines.push(format!("{} {place}", x_line(&case, true)));
+                }
+            }
+        }
     }
     // evaluate in chunks so that a failure is reported early
     for chunk in lines.chunks(2000) {
